@@ -109,9 +109,14 @@ func (t *tokGen) errStrJ(withJunk bool) string {
 	if withJunk && t.r.chance(45) {
 		// the callback also returns a value next to its error: a plain value, or (as a Result-style
 		// function reporting failure "both ways" would) an error Result
-		if t.r.chance(50) {
-			s += "+xu" + strconv.Itoa(t.errN)
-		} else {
+		switch t.r.intn(6) {
+		case 0, 1:
+			s += "+xu" + strconv.Itoa(t.errN) // the same error, reported "both ways"
+		case 2:
+			s += "+xu" + strconv.Itoa(t.errN+50) // an error Result carrying a DIFFERENT error than the one returned
+		case 3:
+			s += "+r" + t.tok() // a successful Result next to the error
+		default:
 			s += "+" + t.tok()
 		}
 	}
